@@ -148,6 +148,9 @@ pub enum TargetMode {
     ReplyAfter(usize, Vec<u8>),
     /// once this many bytes have arrived: send the reply and close
     ReplyAfterThenClose(usize, Vec<u8>),
+    /// on accept: send the first part, stay quiet for this many milliseconds, send the second part and
+    /// close the connection
+    SendPauseSendThenClose(Vec<u8>, u64, Vec<u8>),
 }
 
 #[derive(Default, Debug)]
@@ -184,6 +187,12 @@ impl TcpTarget {
                         }
                         TargetMode::SendThenClose(d) => {
                             let _ = s.write_all(d).await;
+                            return;
+                        }
+                        TargetMode::SendPauseSendThenClose(a, ms, b) => {
+                            let _ = s.write_all(a).await;
+                            tokio::time::sleep(Duration::from_millis(*ms)).await;
+                            let _ = s.write_all(b).await;
                             return;
                         }
                         _ => {}
